@@ -27,11 +27,14 @@ CONSTANTS DepthLimit, PreBody, LogEvents
 \* hooks : Seq([hook, name, args, t]) calls of template_fn / post_template_fn
 \* ev    : Seq(STRING)               push / pop events ("+" \o label / "-")
 \* steps : Nat                       number of pushes so far (work done)
+\* peak  : Nat                       deepest recursion reached: longest expansion path, or path
+\*                                   + nesting depth walked by one argument-substitution pass
 Lbl(n) == [t |-> "lbl", n |-> n]
 TmplLbl(n) == [t |-> "tmpl", n |-> n]
 ArgvalLbl == [t |-> "argval", n |-> ""]
 
 Push(st, l) == [st EXCEPT !.stack = Append(@, l), !.steps = @ + 1,
+                          !.peak = IF Len(st.stack) + 1 > @ THEN Len(st.stack) + 1 ELSE @,
                           !.ev = IF LogEvents THEN Append(@, "+" \o l.t \o ":" \o l.n) ELSE @]
 Pop(st) == [st EXCEPT !.stack = SubSeq(@, 1, Len(@) - 1),
                       !.ev = IF LogEvents THEN Append(@, "-") ELSE @]
@@ -104,8 +107,72 @@ SrcItem(it) ==
     [] it.k = "sw" -> <<"{{", "#switch:">> \o Src(it.v) \o SrcCases(it.cases, 1)
                       \o (IF it.hasDflt THEN <<"|", "#default", "=">> \o Src(it.dflt) ELSE <<>>) \o <<"}}">>
     [] it.k = "inv" -> <<"{{", "#invoke:", "M", "|", it.fn>> \o SrcArgs(it.args, 1) \o <<"}}">>
+    [] it.k = "deep" -> <<"<ERR:depth>">>
 
 ErrDepth == <<"<ERR:depth>">>
+DepthCut(st) == R(ErrDepth, Msg(st, "error", "core/1115"))
+
+(* ---------------- the depth limit covers every kind of nesting ---------- *)
+\* Ideal (repaired) design: whatever is nested -- transclusions, parser functions in
+\* argument or name position, argument references with defaults or computed names,
+\* links -- recursion stops at DepthLimit with an in-band error element and a recorded
+\* error:
+\*  (1) expand_recurse refuses every {{..}}, [[..]] and [..] cookie once the expansion path
+\*      holds DepthLimit entries;
+\*  (2) the argument-substitution pass (expand_args: run once over a template body before
+\*      it is expanded, and over a top-level {{{..}}}) refuses every cookie nested
+\*      DepthLimit deep in other cookies.  CutDeep is that pass seen as a rewriting of the
+\*      abstract syntax: what it refuses becomes the item [k |-> "deep"].
+\* Deviation "NestingOutsideCallsUnbounded" (the design before the repair): only {{..}}
+\* cookies met by expand_recurse are counted; the pass (2) and links are unbounded.
+DeepItem == [k |-> "deep"]
+NestKinds == {"c", "if", "eq", "sw", "inv", "l", "x", "p", "pc"}
+CallsOnly(X) == "NestingOutsideCallsUnbounded" \in X.Dev
+
+RECURSIVE CutDeep(_, _), CutDeepItem(_, _), CutDeepArgs(_, _, _), CutDeepCases(_, _, _), CutDeepParts(_, _, _)
+CutDeep(c, d) == IF c = <<>> THEN <<>> ELSE <<CutDeepItem(Head(c), d)>> \o CutDeep(Tail(c), d)
+CutDeepArgs(args, i, d) ==
+  IF i > Len(args) THEN <<>>
+  ELSE <<[args[i] EXCEPT !.key = CutDeep(@, d), !.val = CutDeep(@, d)]>> \o CutDeepArgs(args, i + 1, d)
+CutDeepCases(cs, i, d) ==
+  IF i > Len(cs) THEN <<>>
+  ELSE <<(IF IsFT(cs[i]) THEN cs[i] ELSE [cs[i] EXCEPT !.val = CutDeep(@, d)])>> \o CutDeepCases(cs, i + 1, d)
+CutDeepParts(ps, i, d) == IF i > Len(ps) THEN <<>> ELSE <<CutDeep(ps[i], d)>> \o CutDeepParts(ps, i + 1, d)
+CutDeepItem(it, d) ==
+  IF it.k \notin NestKinds THEN it
+  ELSE IF d >= DepthLimit THEN DeepItem
+  ELSE CASE it.k = "c" -> [it EXCEPT !.args = CutDeepArgs(@, 1, d + 1)]
+         [] it.k = "inv" -> [it EXCEPT !.args = CutDeepArgs(@, 1, d + 1)]
+         [] it.k = "if" -> [it EXCEPT !.c = CutDeep(@, d + 1), !.y = CutDeep(@, d + 1), !.n = CutDeep(@, d + 1)]
+         [] it.k = "eq" -> [it EXCEPT !.a = CutDeep(@, d + 1), !.b = CutDeep(@, d + 1), !.y = CutDeep(@, d + 1), !.n = CutDeep(@, d + 1)]
+         [] it.k = "sw" -> [it EXCEPT !.v = CutDeep(@, d + 1), !.cases = CutDeepCases(@, 1, d + 1), !.dflt = CutDeep(@, d + 1)]
+         [] it.k = "l" -> [it EXCEPT !.args = CutDeepParts(@, 1, d + 1)]
+         [] it.k = "x" -> [it EXCEPT !.c = CutDeep(@, d + 1)]
+         [] it.k = "p" -> [it EXCEPT !.def = CutDeep(@, d + 1)]
+         [] it.k = "pc" -> [it EXCEPT !.name = CutDeep(@, d + 1), !.def = CutDeep(@, d + 1)]
+
+\* how deep cookies are nested in one another in a content (what one pass walks down)
+Max2(a, b) == IF a >= b THEN a ELSE b
+RECURSIVE SynDepth(_), SynDepthItem(_), SynDepthArgs(_, _), SynDepthCases(_, _), SynDepthParts(_, _)
+SynDepth(c) == IF c = <<>> THEN 0 ELSE Max2(SynDepthItem(Head(c)), SynDepth(Tail(c)))
+SynDepthArgs(args, i) == IF i > Len(args) THEN 0 ELSE Max2(Max2(SynDepth(args[i].key), SynDepth(args[i].val)), SynDepthArgs(args, i + 1))
+SynDepthCases(cs, i) == IF i > Len(cs) THEN 0 ELSE Max2((IF IsFT(cs[i]) THEN 0 ELSE SynDepth(cs[i].val)), SynDepthCases(cs, i + 1))
+SynDepthParts(ps, i) == IF i > Len(ps) THEN 0 ELSE Max2(SynDepth(ps[i]), SynDepthParts(ps, i + 1))
+SynDepthItem(it) ==
+  IF it.k \notin NestKinds THEN (IF it.k = "deep" THEN 1 ELSE 0)
+  ELSE 1 + (CASE it.k = "c" -> SynDepthArgs(it.args, 1)
+              [] it.k = "inv" -> SynDepthArgs(it.args, 1)
+              [] it.k = "if" -> Max2(SynDepth(it.c), Max2(SynDepth(it.y), SynDepth(it.n)))
+              [] it.k = "eq" -> Max2(Max2(SynDepth(it.a), SynDepth(it.b)), Max2(SynDepth(it.y), SynDepth(it.n)))
+              [] it.k = "sw" -> Max2(SynDepth(it.v), Max2(SynDepthCases(it.cases, 1), SynDepth(it.dflt)))
+              [] it.k = "l" -> SynDepthParts(it.args, 1)
+              [] it.k = "x" -> SynDepth(it.c)
+              [] it.k = "p" -> SynDepth(it.def)
+              [] it.k = "pc" -> Max2(SynDepth(it.name), SynDepth(it.def)))
+
+\* one argument-substitution pass over content c, started with path st.stack
+PassOver(c, X) == IF CallsOnly(X) THEN c ELSE CutDeep(c, 0)
+NotePass(st, c) == LET d == Len(st.stack) + SynDepth(c) IN IF d > st.peak THEN [st EXCEPT !.peak = d] ELSE st
 ErrLoop(name) == <<"<ERR:loop:", name, ">">>
 ErrLua(fn) == <<"<ERR:lua:", fn, ">">>
 ErrTimeout(fn) == <<"<ERR:timeout:", fn, ">">>
@@ -178,13 +245,22 @@ ExpJoin(args, i, f, ea, st, X) ==
            r2 == ExpJoin(args, i + 1, f, ea, r1.st, X)
        IN R((IF i > 1 THEN <<"|">> ELSE <<>>) \o r1.out \o r2.out, r2.st)
 
-ExpItem(it, f, ea, st, X) ==
+ExpItem(it0, f, ea, st0, X) ==
+  \* a {{{..}}} met outside any template (kind "A" in expand_recurse) is first run through
+  \* one argument-substitution pass with no bindings
+  LET topArg == f.top /\ it0.k \in {"p", "pc"}
+      it == IF topArg THEN PassOver(<<it0>>, X)[1] ELSE it0
+      st == IF topArg THEN NotePass(st0, <<it>>) ELSE st0
+  IN
   CASE it.k = "t" -> R(it.s, st)
+    [] it.k = "deep" -> DepthCut(st)
     (* ---- [[a|b]] and [http://x.y c]: path label pushed around the expansion of the parts -- *)
     [] it.k = "l" ->
+         IF ~CallsOnly(X) /\ Len(st.stack) >= DepthLimit THEN DepthCut(st) ELSE
          LET r == ExpJoin(it.args, 1, f, ea, Push(st, Lbl("[[link]]")), X)
          IN R(<<"[[">> \o r.out \o <<"]]">>, Pop(r.st))
     [] it.k = "x" ->
+         IF ~CallsOnly(X) /\ Len(st.stack) >= DepthLimit THEN DepthCut(st) ELSE
          LET r == Exp(it.c, f, ea, Push(st, Lbl("[extlink]")), X)
          IN R(<<"[", "http://x.y", "SP">> \o r.out \o <<"]">>, Pop(r.st))
     (* ---- {{{name|default}}} --------------------------------------------- *)
@@ -245,7 +321,8 @@ ExpItem(it, f, ea, st, X) ==
              body == IF marker THEN R(<<"<MARK:", it.name, ">">>, s3)
                      ELSE IF Target(it.name, X.lib) = ""
                      THEN R(<<"[[:Template:", it.name, "]]">>, s3)
-                     ELSE Exp(IncludablePart(X.lib[Target(it.name, X.lib)]), nf, ea \/ (Target(it.name, X.lib) \in X.need /\ ~X.enwikt), s3, X)
+                     ELSE LET b == PassOver(IncludablePart(X.lib[Target(it.name, X.lib)]), X)   \* expand_args(encoded_body, ht)
+                          IN Exp(b, nf, ea \/ (Target(it.name, X.lib) \in X.need /\ ~X.enwikt), NotePass(s3, b), X)
                           \* (core.py:1632-1643: expand_all, or the template needs pre-expansion and the
                           \*  context is not the English Wiktionary)
              t1 == AddNL(body.out)
@@ -348,6 +425,6 @@ ExpItem(it, f, ea, st, X) ==
                          IN R(AddNL(res.out), Pop(Pop(Restore(res.st))))
 
 (* ---------------- one expand() call ---------------- *)
-InitSt(stack) == [stack |-> stack, msgs |-> <<>>, hooks |-> <<>>, ev |-> <<>>, steps |-> 0]
+InitSt(stack) == [stack |-> stack, msgs |-> <<>>, hooks |-> <<>>, ev |-> <<>>, steps |-> 0, peak |-> Len(stack)]
 ExpandCall(page, stack, X) == Exp(page, TopFrame, ~X.o.pre, InitSt(stack), X)
 =============================================================================
